@@ -244,21 +244,33 @@ Proof.
   - vm_compute. repeat split; discriminate.
 Qed.
 
-(* NOT covered by a theorem (prog_pq is not persisted_closed), computed: snapshot, restore, a
-   later write to the flattened leaf of the restored memo, and requests that return the
-   from-scratch values (ex_pq_write above is the short form) *)
+(* the partial_query program is not persisted_closed (the snapshot flattens np(0) away); all
+   durabilities are LOW: C26_results_low applies — snapshot, restore, a request served from the
+   restored memo, a later write to the FLATTENED leaf of the restored memo, a second round, and
+   requests that return the from-scratch values *)
 Definition ops_flat : list op :=
   [OGet (0, 0); OSnapshot; ORestore; OGet (0, 0); OSet (0, 0) 7 None; OGet (0, 0); OGet (3, 0);
-   OSnapshot; OSet (0, 0) 8 (Some 1); ORestore; OGet (0, 0); OSynth 0; OGet (0, 0)].
+   OSnapshot; OSet (0, 0) 8 (Some 0); ORestore; OGet (0, 0); OSynth 0; OGet (0, 0)].
 
 Example ex_flat_results :
   let r := run prog_pq [] nolru ops_flat in
+  Statement.results_ok prog_pq noeq pfam [] nolru FUEL FUEL FUEL (pinit iv (fun _ => 0) nolru) ops_flat /\
   snd r = [POk 2; POk 0; POk 0; POk 2; POk 0; POk 8; POk 7; POk 0; POk 0; POk 0; POk 8; POk 0; POk 8] /\
-  Statement.wf_ops false false ops_flat /\
+  Forall Statement.low_op ops_flat /\ Statement.wf_ops false false ops_flat /\
   ~ Statement.persisted_closed prog_pq pfam.
 Proof.
-  split; [vm_compute; reflexivity|]. split; [cbn; repeat split|].
-  intros Hc. specialize (Hc (0, 0) (3, 0) eq_refl (calls_here (3, 0) _)). discriminate Hc.
+  assert (A : calls_below prog_pq rank_pq).
+  { intros q q' Hc. destruct (prog_pq_calls q q' Hc) as [-> ->]. vm_compute. lia. }
+  assert (B : forall q, (rank_pq q < FUEL)%nat).
+  { intros q. unfold rank_pq, FUEL. destruct (key_eqb q (0, 0)); lia. }
+  assert (B' : forall q, (S (rank_pq q) < FUEL)%nat).
+  { intros q. unfold rank_pq, FUEL. destruct (key_eqb q (0, 0)); lia. }
+  assert (L : Forall Statement.low_op ops_flat) by (repeat constructor).
+  assert (W : Statement.wf_ops false false ops_flat) by (cbn; repeat split).
+  cbv zeta. split; [|split; [vm_compute; reflexivity | split; [exact L | split; [exact W|]]]].
+  - apply (PTop.results_low prog_pq noeq pfam [] nolru rank_pq A FUEL B FUEL FUEL B B' iv ops_flat L W).
+    vm_compute. repeat split; discriminate.
+  - intros Hc. specialize (Hc (0, 0) (3, 0) eq_refl (calls_here (3, 0) _)). discriminate Hc.
 Qed.
 
 (* ---------------------------------------------------------------- F4 (fixed): memo-less dependency *)
@@ -307,3 +319,34 @@ Example ex_f4_cold :
     [OGet (0, 1); OGet (1, 1); OGet (1, 2); OSynth 0; OGet (0, 1); OSnapshot; ORestore;
      OGet (0, 0); OSnapshot; ORestore; OSet (0, 0) 7 None; OGet (0, 0)])) PFuel = PPanic PUninit.
 Proof. vm_compute. reflexivity. Qed.
+
+Definition rank_f4 (q : qkey) : nat :=
+  if key_eqb q (0, 0) then 3%nat else if key_eqb q (3, 0) then 2%nat else if key_eqb q (0, 1) then 1%nat else 0%nat.
+
+Lemma prog_f4_calls q q' : calls (prog_f4 q) q' -> (rank_f4 q' < rank_f4 q)%nat.
+Proof.
+  unfold prog_f4. destruct (key_eqb_spec q (0, 0)) as [-> | _].
+  { intros Hc. inversion Hc as [ | ? ? ? ? Hc1 | | | | ]; subst; [vm_compute; lia | inversion Hc1]. }
+  destruct (key_eqb_spec q (3, 0)) as [-> | _].
+  { intros Hc. inversion Hc as [ | ? ? ? ? Hc1 | | | | ]; subst; [vm_compute; lia | inversion Hc1]. }
+  destruct (key_eqb_spec q (0, 1)) as [-> | _].
+  { intros Hc. inversion Hc as [ | ? ? ? ? Hc1 | | | | ]; subst; [vm_compute; lia | inversion Hc1]. }
+  destruct (fst q =? 1); intros Hc.
+  - inversion Hc as [ | | ? ? ? ? Hc1 | | | ]; subst. inversion Hc1.
+  - inversion Hc.
+Qed.
+
+(* the history of the former stale value is an instance of C26_results_low: every request
+   returns the from-scratch value *)
+Example ex_f4_results :
+  Statement.results_ok prog_f4 noeq pfam [1] lru2 FUEL FUEL FUEL (pinit iv (fun _ => 0) lru2) ops_f4.
+Proof.
+  assert (R : forall q, (rank_f4 q <= 3)%nat).
+  { intros q. unfold rank_f4. repeat match goal with |- context [if ?b then _ else _] => destruct b end; lia. }
+  assert (B : forall q, (rank_f4 q < FUEL)%nat) by (intros q; specialize (R q); unfold FUEL; lia).
+  assert (B' : forall q, (S (rank_f4 q) < FUEL)%nat) by (intros q; specialize (R q); unfold FUEL; lia).
+  apply (PTop.results_low prog_f4 noeq pfam [1] lru2 rank_f4 prog_f4_calls FUEL B FUEL FUEL B B' iv ops_f4).
+  - repeat constructor.
+  - cbn. repeat split.
+  - vm_compute. repeat split; discriminate.
+Qed.
